@@ -342,6 +342,73 @@ Definition run_prio1 (args : list Z) : list Z :=
   | _ => [-99]
   end.
 
+(* ---- family 11: v1 simplified discipline = Prio1 + HandlersQuantity handler goroutines (priority/simple.go), like family 9.
+   The output and feedback channels are the discipline's own, capacity DivideWithMin(H, 10, number of inputs).
+   [divider; H; fuel; 2n; (priority buffered)*n; 3m; (code arg settle)*m]   codes: 1 p put, 2 p close, 4 k let go, 10 GracefulStop,
+   11/12 Stop / cancel (what happens after those is not compared: Handle calls are interrupted through their context)
+   -> [0; per op: running total k started-items(sorted ascending)..; terminated; errcode] *)
+Fixpoint autotake1 (base : Divider) (fuel : nat) (n : nat) (hq : nat) (sm : Prio1Sim.psim) (acc : list (N * N)) : Prio1Sim.psim * list (N * N) :=
+  match n with
+  | O => (sm, acc)
+  | S n' =>
+      if andb (Nat.ltb (length (Prio1Sim.ps_held sm)) hq) (match Prio1.outq (Prio1Sim.ps_st sm) with [] => false | _ => true end) then
+        let '(sm1, (tp, tx)) := Prio1Sim.apply_op true base fuel sm 3 0 0 true in autotake1 base fuel n' hq sm1 ((tx, tp) :: acc)
+      else (sm, acc)
+  end.
+Fixpoint chan_of_prio (p : Z) (cfgs : list (Z * Z)) (i : nat) : Z :=
+  match cfgs with
+  | [] => 999999
+  | (q, b) :: r => if q =? p then (if b =? 0 then 1000 + Z.of_nat i else Z.of_nat i) else chan_of_prio p r (S i)
+  end.
+Fixpoint run_simple1_ops (base : Divider) (fuel : nat) (hq : nat) (cfgs : list (Z * Z)) (sm : Prio1Sim.psim) (running : list (N * N)) (total : nat)
+         (ops : list (Z * Z * Z)) : list Z :=
+  match ops with
+  | [] => match Prio1.pcs (Prio1Sim.ps_st sm) with Prio1.Done None => [1; 0] | Prio1.Done (Some _) => [1; 1] | _ => [0; -1] end
+  | (code, arg, _) :: r =>
+      let '(sm1, running1) :=
+        if code =? 4 then
+          match running with
+          | [] => (sm, running)
+          | _ =>
+              let i := Z.to_nat (arg mod Z.of_nat (length running)) in
+              let xp := nth i running (0%N, 0%N) in
+              let rest := firstn i running ++ skipn (S i) running in
+              match index_of_prio (snd xp) (Prio1Sim.ps_held sm) 0 with
+              | Some j => (fst (Prio1Sim.apply_op true base fuel sm 4 (Z.of_nat j) 0 true), rest)
+              | None => (sm, rest)
+              end
+          end
+        else if orb (code =? 1) (code =? 2) then (fst (Prio1Sim.apply_op true base fuel sm code (chan_of_prio arg cfgs 0) 0 true), running)
+        else if orb (code =? 10) (orb (code =? 11) (code =? 12)) then (fst (Prio1Sim.apply_op true base fuel sm code 0 0 true), running)
+        else (sm, running) in
+      let '(sm2, got) := autotake1 base fuel (S (S fuel)) hq sm1 [] in
+      let total2 := (total + length got)%nat in
+      let running2 := fold_right insert_xp running1 got in
+      [Z.of_nat (length running2); Z.of_nat total2; Z.of_nat (length got)] ++ ns_to_zs (map fst (fold_right insert_xp [] got)) ++
+      run_simple1_ops base fuel hq cfgs sm2 running2 total2 r
+  end.
+Fixpoint cfg_chans (cfgs : list (Z * Z)) (i : nat) : list (N * nat) :=
+  match cfgs with
+  | [] => []
+  | (q, b) :: r => (Z.to_N q, if b =? 0 then (1000 + i)%nat else i) :: cfg_chans r (S i)
+  end.
+Definition run_simple1 (args : list Z) : list Z :=
+  match args with
+  | kind :: h :: fuel :: r =>
+      if h =? 0 then [-2] else
+      let '(pb, r1) := take_list r in
+      let '(ops, _) := take_list r1 in
+      let cfgs := pairs pb in
+      let base := divider_of kind in
+      let ocap := divide_with_min (Z.to_N h) 10 (N.of_nat (length cfgs)) in
+      let s0 := Prio1.init_state (fun _ => base) (cfg_chans cfgs 0) (Z.to_N h) (fun ch => Nat.ltb ch 1000) ocap in
+      let '(s1, amb0) := Prio1Sim.sched_run true (fun _ => base) (Z.to_nat fuel) true None false s0 in
+      let '(sm0, got0) := autotake1 base (Z.to_nat fuel) (S (S (Z.to_nat fuel))) (Z.to_nat h)
+                            (Prio1Sim.mkPsim s1 [] 1 None amb0 (map (fun x => Z.to_N (fst x)) cfgs)) [] in
+      0 :: run_simple1_ops base (Z.to_nat fuel) (Z.to_nat h) cfgs sm0 (fold_right insert_xp [] got0) (length got0) (triples ops)
+  | _ => [-99]
+  end.
+
 Definition run (args : list Z) : list Z :=
   match args with
   | 1 :: which :: rest => run_rate which rest
@@ -352,6 +419,7 @@ Definition run (args : list Z) : list Z :=
   | 6 :: rest => run_limit rest
   | 7 :: rest => run_prio2 rest
   | 8 :: rest => run_prio1 rest
+  | 11 :: rest => run_simple1 rest
   | 9 :: rest => run_simple2 rest
   | _ => [-999]
   end.
